@@ -239,5 +239,31 @@ TEXTS = {
                  "resolve_deps_with_namespace / transform."),
         "technique": "Coq proof (mutual induction over the lattice, denotational laws, measure) + exhaustive/random differential testing through hooks + proved decision procedure run on real fast-check outputs",
     },
+    "C12": {
+        "text": ("Coq theorems over an executable model of the fast-check package driver (find's package worklist with "
+                 "cache lookup and hash validation, transform_package, cache fill, build_fast_check_type_graph, slot "
+                 "assignment) over abstract per-module outcomes: a package transformed in the run is all-or-nothing "
+                 "(no errors: every ESM module of the traced set gets output and no entrypoint a diagnostic; errors: "
+                 "no module gets output and every entrypoint carries them); written cache entries are homogeneous; a "
+                 "replayed successful entry gives every listed module its output, a replayed failed entry gives no "
+                 "output and `cached` diagnostics to the listed modules; the slots do not depend on the order in which "
+                 "the package HashMap is iterated; the packages handled are the dependency closure of the top-level "
+                 "ones; and cache transparency of emitted modules under an explicit, decidable read-set hypothesis "
+                 "(theorem named _partial). Two statements are refuted in the model and on the real code (known "
+                 "findings): after a cache hit on a FAILED package an entrypoint that lies behind the first error has "
+                 "neither output nor diagnostics (F-C12a), and a failed entry keeps validating after the module that "
+                 "caused the failure changed, because only the modules up to the first error are hashed (F-C12b: the "
+                 "package passes without cache and fails with it). A third divergence of real outputs with/without "
+                 "cache (F-C12c: cross-package `export *` + default export) lies in the tracer, outside the model, and "
+                 "is judged relationally. The model is tied to the code on every run: hundreds/thousands of 8-step "
+                 "histories (cold/warm/stale cache, edits of every kind) where slots, cache content and cache traffic "
+                 "predicted by the extracted model are compared with the real ones and the real slots are judged."),
+        "design_ref": "DESIGN.md section 5 C12",
+        "note": ("Trusted: Coq kernel; extraction; the harness's abstraction (interning of specifiers, package "
+                 "name@versions, emitted text+source map, source texts as hashes, diagnostic codes), the tracer hook "
+                 "in /repo (read-only dump), the in-memory FastCheckCache. Partial: tracer and transform are data; "
+                 "transparency has the read-set property as hypothesis; dependency-key equality is checked, not proved."),
+        "technique": "Coq proof (driver model, worklist reachability instance, order independence) + refutation witnesses + model-predicted histories compared with the real code + proved decision procedures on real slots",
+    },
 }
 NOT_YET = {}
